@@ -257,8 +257,11 @@ TRUSTED_BASE = [
     "coqc 8.16.1 kernel (full .vo builds, vm_compute for case evaluation, no native_compute)",
     "stdlib axioms only, where real numbers are used: ClassicalDedekindReals.sig_forall_dec, "
     "ClassicalDedekindReals.sig_not_dec, FunctionalExtensionality.functional_extensionality_dep",
-    "translator/py2coq.py (python ast -> Gallina, fail-closed per output file) for lists.py, iocontract.py, module constants and the PolyhedralTerm methods of polyhedra.py",
+    "translator/py2coq.py and its generator modules py2coq_*.py (python ast -> Gallina, fail-closed per output file, per function in the polyhedra.py generators): "
+    "lists.py, iocontract.py, compundiocontract.py, polyhedra.py (terms, term lists, tactics, LP functions), the syntax classes and parse actions, the grammar rules, "
+    "serializer.py (validation, printer), polyhedral_iocontract.py (wrappers, dictionary forms incl. compound contracts), fileio.py, the vertex routine of plots.py",
+    "translator/py2coq_heap.py (python ast -> effect program of base/PyHeap.v, C13): statement classification, external callables assumed read-only, annotated Var/str/int/float/bool values as atoms (docs/HEAPGEN_REPORT.md)",
     "correspondence harness (generators, float->Q conversion via as_integer_ratio, LP/sympy recorders, canonicalisation)",
-    "hand-written models coq/model/*.v are tied to the code by correspondence only",
+    "hand-written models coq/model/*.v: proved equal to the regenerated translation where a Cxx_code_* theorem says so, tied by correspondence otherwise (pyparsing engine, %.4g / np.isclose, session machine, external solvers as oracles)",
     "scipy/HiGHS assumed to meet lp_spec (each recorded answer validated by exact certificates, base/Farkas.v)",
 ]
